@@ -410,6 +410,12 @@ func (t *Topic) exit(deleted bool) error {
 	t.RUnlock()
 
 	// write anything leftover to disk
+	//
+	// (a publish that passed the exiting check above still holds the read
+	// lock: wait for it, otherwise its message could reach the memory queue
+	// after the flush and be acknowledged but never written)
+	t.Lock()
+	defer t.Unlock()
 	t.flush()
 	return t.backend.Close()
 }
